@@ -8,6 +8,7 @@ package absnfs
 
 import (
 	"io"
+	"net"
 
 	"github.com/absfs/absfs"
 	"sync/atomic"
@@ -191,3 +192,8 @@ func VerifDirCacheOrder(c *DirCache) []string {
 func VerifIsChildOf(p, d string) bool { return isChildOf(p, d) }
 func VerifAttrCache(n *AbsfsNFS) *AttrCache { return n.attrCache }
 func VerifDirCache(n *AbsfsNFS) *DirCache   { return n.dirCache }
+
+// ---- portmapper (C27) ----
+func VerifPortmapCall(pm *Portmapper, data []byte, addr net.Addr) ([]byte, error) {
+	return pm.handleCall(data, addr)
+}
